@@ -48,6 +48,8 @@ type Task struct {
 	InOp int
 	// Steps counts the scheduling points this task passed.
 	Steps int64
+	// Parent is the task that spawned this one (nil for the tasks of the harness).
+	Parent *Task
 }
 
 type killSentinel struct{}
@@ -74,6 +76,8 @@ type Sched struct {
 	Deadlock   bool
 	Overrun    bool
 	last       int
+	// Spawned counts the tasks created by Spawn (goroutines the code under test started).
+	Spawned int
 }
 
 func NewSched(p Policy) *Sched {
@@ -85,6 +89,27 @@ func (s *Sched) Go(name string, fn func()) *Task {
 	t := &Task{ID: len(s.tasks), Name: name, fn: fn, resume: make(chan struct{}), Site: -1}
 	s.tasks = append(s.tasks, t)
 	return t
+}
+
+// SpawnSite is the site id of the scheduling point right after a spawn.
+const SpawnSite = -3
+
+// Spawn is what a go statement inside the code under test becomes: the body
+// is a new task, runnable from now on; which of parent and child proceeds is
+// the policy's decision like everything else. The child counts as being inside
+// the parent's operation. Outside a task (harness code between scheduling
+// points) the body runs at once.
+func (s *Sched) Spawn(f func()) {
+	t := s.cur
+	if t == nil {
+		f()
+		return
+	}
+	s.Spawned++
+	child := s.Go(fmt.Sprintf("%s/go%d", t.Name, s.Spawned), f)
+	child.Parent = t
+	child.InOp = t.InOp
+	s.Yield(SpawnSite)
 }
 
 // Current returns the running task, nil on the scheduler goroutine.
@@ -162,6 +187,9 @@ func (s *Sched) start(t *Task) {
 				}
 			}
 			t.state = tsDone
+			if t.Parent != nil {
+				t.InOp = 0
+			}
 			s.cur = nil
 			s.back <- struct{}{}
 		}()
@@ -298,6 +326,14 @@ func (p *PCT) Next(runnable []int, step int64, last int) (int, int64) {
 		if last >= 0 {
 			p.low--
 			p.Prio[last] = p.low
+		}
+	}
+	// tasks spawned during the run: a priority between the others', fixed by the id
+	if top := runnable[len(runnable)-1]; top >= len(p.Prio) {
+		n0 := len(p.Prio)
+		for id := n0; id <= top; id++ {
+			x := SplitMix{s: uint64(id)*0x9e3779b97f4a7c15 + uint64(n0)}
+			p.Prio = append(p.Prio, int(x.Uint64()%uint64(2*n0+3))-1)
 		}
 	}
 	best := runnable[0]
